@@ -64,11 +64,22 @@ impl Ad { async fn discover(&self) -> passage_adapters::Result<Vec<passage_adapt
 enum Ev { Add(Gs), Modify(Gs), Delete(Gs), Bookmark, Relist(Vec<Gs>),
     /// 410 Gone, then a paged re-list whose first page (these objects) arrives and whose second page fails;
     /// the retried list returns the second component
-    RelistFail(Vec<Gs>, Vec<Gs>) }
+    RelistFail(Vec<Gs>, Vec<Gs>),
+    /// 410 Gone, then a re-list in which nothing is ready (these objects, none of them routable, or none at all)
+    RelistEmpty(Vec<Gs>),
+    /// 410 Gone, then this many consecutive requests answered with 500 before the re-list (this list) succeeds
+    Outage(usize, Vec<Gs>),
+    /// the watch connection ends (no 410) and this many consecutive requests are answered with 500 before the API works again
+    OutageWatch(usize),
+    /// these MODIFIED events back to back while four tasks keep calling discover(): a server that stays routable through
+    /// all of them is in every snapshot
+    Storm(Vec<Gs>) }
 
 struct MockState { list: Vec<Gs>, rv: u64, watch_tx: Option<mpsc::UnboundedSender<String>>, lists_served: usize,
     /// first page to hand out (with a continue token) on the next list request; the continue request then fails once
-    page1: Option<Vec<Gs>>, failed_served: usize }
+    page1: Option<Vec<Gs>>, failed_served: usize,
+    /// answer this many further requests (list or watch) with 500
+    fail_next: usize }
 
 async fn serve(listener: tokio::net::TcpListener, st: Arc<Mutex<MockState>>) {
     loop {
@@ -86,6 +97,12 @@ async fn serve(listener: tokio::net::TcpListener, st: Arc<Mutex<MockState>>) {
                     buf.drain(..end + 4);
                     let target = head.lines().next().unwrap_or("").split(' ').nth(1).unwrap_or("").to_string();
                     let scope = path_ns(&target);
+                    let outage = { let mut m = st.lock().unwrap(); if m.fail_next > 0 { m.fail_next -= 1; m.failed_served += 1; true } else { false } };
+                    if outage {
+                        let body = json!({"kind": "Status", "apiVersion": "v1", "status": "Failure", "message": "the server is currently unable to handle the request", "reason": "ServiceUnavailable", "code": 500}).to_string();
+                        if sock.write_all(format!("HTTP/1.1 500 Internal Server Error\r\ncontent-type: application/json\r\ncontent-length: {}\r\n\r\n{}", body.len(), body).as_bytes()).await.is_err() { return; }
+                        continue;
+                    }
                     if target.contains("watch=true") {
                         let (tx, mut rx) = mpsc::unbounded_channel::<String>();
                         st.lock().unwrap().watch_tx = Some(tx);
@@ -188,6 +205,13 @@ pub fn run(a: &Args) {
                     let mut p1: Vec<Gs> = vec![];
                     for nm in &names { if rng.chance(1, 2) { let mut g = gen_gs(&mut rng, nm); if rng.chance(2, 3) { g.state = "Ready".into(); g.has_status = true; g.address = "10.0.0.1".into(); g.ports = vec![7000]; g.labels.retain(|x| x.0 != "state"); } p1.push(g); } }
                     Ev::RelistFail(p1, l)
+                } else if rng.chance(1, 3) {
+                    // nothing ready any more: an empty list, or only objects that are not routable
+                    let mut e: Vec<Gs> = vec![];
+                    if rng.chance(1, 2) { for nm in &names { if rng.chance(1, 2) { let mut g = gen_gs(&mut rng, nm); g.state = rng.pick(&["Shutdown", "Scheduled", "Unhealthy"]).to_string(); e.push(g); } } }
+                    live = e.iter().map(|g| g.name.clone()).collect();
+                    cur = e.iter().map(|g| (g.name.clone(), g.clone())).collect();
+                    Ev::RelistEmpty(e)
                 } else { Ev::Relist(l) }
             } else if live.iter().any(|x| x == nm) {
                 match rng.below(5) { 0 | 1 => { live.retain(|x| x != nm); Ev::Delete(gen_gs(&mut rng, nm)) } 2 => Ev::Bookmark,
@@ -212,7 +236,24 @@ pub fn run(a: &Args) {
             evs.push(ev);
         }
         if collision { evs = vec![Ev::Bookmark]; }
-        let st = Arc::new(Mutex::new(MockState { list: initial.clone(), rv: 100, watch_tx: None, lists_served: 0, page1: None, failed_served: 0 }));
+        let ready = |rng: &mut Rng, name: &str, addr: &str| { let mut g = gen_gs(rng, name); g.state = "Ready".into(); g.has_status = true; g.address = addr.into(); g.ports = vec![7000]; g.labels.retain(|l| l.0 != "state"); g };
+        if n == 1 {
+            // an outage of the API server: four requests in a row fail before the re-list succeeds
+            initial = vec![ready(&mut rng, "gs-a", "10.0.0.1"), ready(&mut rng, "gs-b", "10.1.2.3")];
+            evs = vec![Ev::Add(ready(&mut rng, "gs-c", "10.0.0.1")), Ev::OutageWatch(4), Ev::Delete(ready(&mut rng, "gs-a", "10.0.0.1")), Ev::Outage(if a.thorough { 6 } else { 2 }, vec![ready(&mut rng, "gs-b", "10.1.2.3"), ready(&mut rng, "gs-d", "::1")]), Ev::Add(ready(&mut rng, "gs-a", "10.0.0.1"))];
+        }
+        if n == 2 {
+            // readers during a storm of updates
+            initial = vec![ready(&mut rng, "gs-a", "10.0.0.1"), ready(&mut rng, "gs-b", "10.1.2.3")];
+            let storm: Vec<Gs> = (0..400).map(|i| { let mut g = initial[0].clone(); g.state = if i % 2 == 0 { "Allocated".into() } else { "Ready".into() }; g.counters = Some(vec![("players".to_string(), Some(i as u32))]); g }).collect();
+            evs = vec![Ev::Storm(storm)];
+        }
+        if n == 7 {
+            // everything is gone by the time the watch is re-established
+            initial = vec![ready(&mut rng, "gs-a", "10.0.0.1"), ready(&mut rng, "gs-b", "10.1.2.3")];
+            evs = vec![Ev::RelistEmpty(vec![]), Ev::Add(ready(&mut rng, "gs-d", "10.0.0.1"))];
+        }
+        let st = Arc::new(Mutex::new(MockState { list: initial.clone(), rv: 100, watch_tx: None, lists_served: 0, page1: None, failed_served: 0, fail_next: 0 }));
         let kubeconfig = dir.join(format!("kc-{n}.yaml"));
         let (observed, model_evs, oracle) = rt.block_on(async {
             let listener = tokio::net::TcpListener::bind("127.0.0.1:0").await.unwrap();
@@ -224,6 +265,7 @@ pub fn run(a: &Args) {
             // every other history through the application's factory and wrapper (its own watcher configuration: bookmarks, pages of 500)
             let adapter = if n % 2 == 1 { Ad::App(passage::adapter::discovery::DynDiscoveryAdapter::from_config(passage::config::DiscoveryAdapter::Agones(passage::config::AgonesDiscovery { namespace: None, label_selector: None, field_selector: None })).await.expect("agones adapter through the factory")) }
                 else { Ad::Direct(AgonesDiscoveryAdapter::new(None, Default::default()).await.expect("agones adapter")) };
+            let adapter = Arc::new(adapter);
             let mut snaps = vec![];
             let mut model: Vec<String> = vec!["init".into()];
             let mut store: BTreeMap<(String, String), Gs> = BTreeMap::new();
@@ -287,6 +329,87 @@ pub fn run(a: &Args) {
                         check(&mut snaps, &store, ts, &mut why, &what);
                         continue;
                     }
+                    Ev::Storm(gs) => {
+                        what = format!("{} MODIFIED events back to back with four concurrent readers", gs.len());
+                        let stop = Arc::new(std::sync::atomic::AtomicBool::new(false));
+                        let name = gs[0].name.clone();
+                        let readers: Vec<_> = (0..4).map(|_| { let (ad, stop, name) = (adapter.clone(), stop.clone(), name.clone()); tokio::spawn(async move {
+                            let (mut total, mut missing) = (0u64, 0u64);
+                            while !stop.load(std::sync::atomic::Ordering::Relaxed) { if let Ok(ts) = ad.discover().await { total += 1; if !ts.iter().any(|t| t.identifier == name) { missing += 1; } } tokio::task::yield_now().await; }
+                            (total, missing) }) }).collect();
+                        for g in gs {
+                            let rv = { let mut m = st.lock().unwrap(); m.rv += 1; m.rv };
+                            send(&g.namespace, json!({"type": "MODIFIED", "object": g.json(rv)}).to_string());
+                            model.push(format!("ap:{}", g.tok())); store.insert((g.namespace.clone(), g.name.clone()), g.clone());
+                            tokio::task::yield_now().await;
+                        }
+                        sentinel += 1;
+                        let s = Gs { name: format!("sentinel-{sentinel}"), address: "127.0.0.9".into(), ports: vec![9], state: "Ready".into(), counters: None, lists: None, labels: vec![], annotations: vec![], has_status: true, namespace: "default".into() };
+                        let rv = { let mut m = st.lock().unwrap(); m.rv += 1; m.rv };
+                        send(&s.namespace, json!({"type": "ADDED", "object": s.json(rv)}).to_string());
+                        model.push(format!("ap:{}", s.tok())); store.insert((s.namespace.clone(), s.name.clone()), s.clone());
+                        let want = s.name.clone();
+                        let ts = wait_for(&adapter, |ts| ts.iter().any(|t| t.identifier == want), 8000).await;
+                        stop.store(true, std::sync::atomic::Ordering::Relaxed);
+                        let (mut total, mut missing) = (0u64, 0u64);
+                        for r in readers { if let Ok((t, m)) = r.await { total += t; missing += m; } }
+                        if missing > 0 { why.push(format!("{missing} of {total} concurrent snapshots lacked {name}, which was Ready or Allocated throughout")); }
+                        model.push("S".into());
+                        check(&mut snaps, &store, ts, &mut why, &what);
+                        continue;
+                    }
+                    Ev::RelistEmpty(l) => {
+                        what = "410 Gone + a re-list in which nothing is ready".into();
+                        let old_tx = { let mut m = st.lock().unwrap(); m.list = l.clone(); m.watch_tx.take() };
+                        if let Some(tx) = old_tx {
+                            let _ = tx.send(json!({"type": "ERROR", "object": {"kind": "Status", "apiVersion": "v1", "status": "Failure", "message": "too old resource version", "reason": "Expired", "code": 410}}).to_string());
+                            let _ = tx.send("<close>".to_string());
+                        }
+                        model.push("init".into()); store.clear();
+                        for g in l { model.push(format!("ia:{}", g.tok())); store.insert((g.namespace.clone(), g.name.clone()), g.clone()); }
+                        model.push("done".into());
+                        // no marker object can tell when this list has been applied: wait until nothing is offered (or give up)
+                        let ts = wait_for(&adapter, |ts| ts.is_empty(), 8000).await;
+                        let t1 = tokio::time::Instant::now();
+                        while st.lock().unwrap().watch_tx.is_none() && t1.elapsed() < Duration::from_secs(5) { tokio::time::sleep(Duration::from_millis(5)).await; }
+                        model.push("S".into());
+                        check(&mut snaps, &store, ts, &mut why, &what);
+                        continue;
+                    }
+                    Ev::OutageWatch(k) => {
+                        what = format!("watch dropped + {k} consecutive failing requests");
+                        let old_tx = { let mut m = st.lock().unwrap(); m.fail_next = *k; m.watch_tx.take() };
+                        if let Some(tx) = old_tx { let _ = tx.send("<close>".to_string()); }
+                        // until the API has answered again and a watch is re-established (the watcher backs off 0.8 s doubling between attempts)
+                        let t1 = tokio::time::Instant::now();
+                        while (st.lock().unwrap().fail_next > 0 || st.lock().unwrap().watch_tx.is_none()) && t1.elapsed() < Duration::from_secs(60) { tokio::time::sleep(Duration::from_millis(20)).await; }
+                        if st.lock().unwrap().watch_tx.is_none() { why.push(format!("after {what} the adapter never asked the API again (waited 60 s): its cache is frozen")); }
+                    }
+                    Ev::Outage(k, l) => {
+                        what = format!("410 Gone + {k} consecutive failing requests + re-list");
+                        sentinel += 1;
+                        let s = Gs { name: format!("sentinel-{sentinel}"), address: "127.0.0.9".into(), ports: vec![9], state: "Ready".into(), counters: None, lists: None, labels: vec![], annotations: vec![], has_status: true, namespace: "default".into() };
+                        let mut l2 = l.clone(); l2.push(s.clone());
+                        let failed_before = st.lock().unwrap().failed_served;
+                        let old_tx = { let mut m = st.lock().unwrap(); m.list = l2.clone(); m.fail_next = *k; m.watch_tx.take() };
+                        if let Some(tx) = old_tx {
+                            let _ = tx.send(json!({"type": "ERROR", "object": {"kind": "Status", "apiVersion": "v1", "status": "Failure", "message": "too old resource version", "reason": "Expired", "code": 410}}).to_string());
+                            let _ = tx.send("<close>".to_string());
+                        }
+                        model.push("init".into()); store.clear();
+                        for g in &l2 { model.push(format!("ia:{}", g.tok())); store.insert((g.namespace.clone(), g.name.clone()), g.clone()); }
+                        model.push("done".into());
+                        let want = format!("sentinel-{sentinel}");
+                        // the watcher backs off between attempts (0.8 s doubling): give it a minute
+                        let t_out = tokio::time::Instant::now();
+                        let ts = wait_for(&adapter, |ts| ts.iter().any(|t| t.identifier == want), 60000).await;
+                        eprintln!("c20 outage: {} failing requests served, settled={} after {} ms", st.lock().unwrap().failed_served - failed_before, ts.is_some(), t_out.elapsed().as_millis());
+                        let t1 = tokio::time::Instant::now();
+                        while st.lock().unwrap().watch_tx.is_none() && t1.elapsed() < Duration::from_secs(5) { tokio::time::sleep(Duration::from_millis(5)).await; }
+                        model.push("S".into());
+                        check(&mut snaps, &store, ts, &mut why, &what);
+                        continue;
+                    }
                     Ev::Relist(l) => {
                         what = "410 Gone + re-list".into();
                         sentinel += 1;
@@ -330,7 +453,7 @@ pub fn run(a: &Args) {
         // ip oracle tokens
         let mut ips: Vec<String> = vec![];
         for tok in ["", "not-an-ip", "10.0.0.256", "10.0.0.1", "10.0.0.2", "10.1.2.3", "2001:db8::5", "::1", "127.0.0.9"] { ips.push(format!("ip={}:{}", hex(tok.as_bytes()), tok.parse::<IpAddr>().map_or("-".to_string(), |i| hex(i.to_string().as_bytes())))); }
-        let class = if collision { "finding:namespace-collision".to_string() } else { format!("{}:{}", if evs.iter().any(|e| matches!(e, Ev::RelistFail(..))) { "relist-interrupted" } else if evs.iter().any(|e| matches!(e, Ev::Relist(_))) { "relist" } else { "watch" }, if evs.iter().any(|e| matches!(e, Ev::Delete(_))) { "with-delete" } else { "no-delete" }) };
+        let class = if collision { "finding:namespace-collision".to_string() } else { format!("{}:{}", if evs.iter().any(|e| matches!(e, Ev::Outage(..) | Ev::OutageWatch(_))) { "outage" } else if evs.iter().any(|e| matches!(e, Ev::RelistEmpty(_))) { "relist-empty" } else if evs.iter().any(|e| matches!(e, Ev::RelistFail(..))) { "relist-interrupted" } else if evs.iter().any(|e| matches!(e, Ev::Relist(_))) { "relist" } else { "watch" }, if evs.iter().any(|e| matches!(e, Ev::Delete(_))) { "with-delete" } else { "no-delete" }) };
         cases.push(Case { request: format!("c20.run {} | {}", ips.join(" "), model_evs.join(" ")), observed, oracle: if oracle.is_empty() { None } else { Some(oracle.join("; ")) }, class });
     }
     let _ = std::fs::remove_dir_all(&dir);
